@@ -1,0 +1,9 @@
+//go:build verif
+
+package webp
+
+import "github.com/deepteams/webp/internal/dsp"
+
+// VerifArchForceSSE2 makes the codec behave as on an amd64 CPU without AVX2
+// (property C13).
+func VerifArchForceSSE2() bool { return dsp.VerifArchForceSSE2() }
